@@ -502,3 +502,46 @@ M2('c08-options-alias-rebound', 'C08', 'R5', [
 # negative controls (exit 0; preserving/k1-c08-1, k1-c08-2, k1-c06-2): the comma-split block extracted verbatim into
 # `_split_csv_value(value, keep_blank)`; `values = [e for e in values if e]` then `if is_encoded: [decode(e) ...] else: values`;
 # `if options is None: options = RequestOptions()` / `self.options = options` and `options.keep_blank_qs_values` at the call
+
+# ---------------------------------------------------------------- second preserving wave (k2-*): refactoring + break
+_REQ = 'falcon/request.py'
+_MISC = 'falcon/util/misc.py'
+_URI = 'falcon/util/uri.py'
+# k2-c08-2 shape: the list case split of the getters lives in a module-level helper; the mistake sits in the helper
+_LAST_VALUE = ("def _last_value(value):\n    if isinstance(value, list):\n        return value[%s]\n\n    return %s\n\n\nclass Request:\n")
+_LV_EDITS = [
+    {'file': _REQ, 'old': "            val_str = params[name]\n            if isinstance(val_str, list):\n                val_str = val_str[-1]\n",
+     'new': "            val_str = _last_value(params[name])\n", 'count': 4},
+    {'file': _REQ, 'old': "            param = params[name]\n            if isinstance(param, list):\n                param = param[-1]\n",
+     'new': "            param = _last_value(params[name])\n"}]
+M2('c08-last-value-helper-takes-first', 'C08', 'R3', [{'file': _REQ, 'old': "class Request:\n", 'new': _LAST_VALUE % ('0', 'value')}] + _LV_EDITS)
+# the helper written as one expression, wrong end of the list
+M2('c08-last-value-helper-expr-takes-first', 'C08', 'R3', [
+    {'file': _REQ, 'old': "class Request:\n",
+     'new': "def _last_value(value):\n    return value[0] if isinstance(value, list) else value\n\n\nclass Request:\n"}] + _LV_EDITS)
+
+# k2-c08-3 shape: the pairs are collected in a list and joined once; the mistake sits in a piece / in the join
+_QS_EDITS = [
+    {'file': _MISC, 'old': "    query_str = '?' if prefix else ''\n", 'new': "    query_prefix = '?' if prefix else ''\n    pieces = []\n"},
+    {'file': _MISC, 'old': "                    query_str += encode_value(k) + '=' + list_value + '&'\n",
+     'new': "                    pieces.append(encode_value(k) + '=' + list_value + '&')\n"},
+    {'file': _MISC, 'old': "    return query_str[:-1]\n", 'new': "    query_str = query_prefix + %s.join(pieces)\n    return query_str[:-1]\n"}]
+
+
+def _qs(last_piece, sep="''"):
+    return [dict(e, new=(e['new'] % sep) if '%s' in e['new'] else e['new']) for e in _QS_EDITS] + [
+        {'file': _MISC, 'old': "        query_str += encode_value(k) + '=' + v + '&'\n", 'new': last_piece}]
+
+
+M2('c08-qs-pieces-raw-key', 'C08', 'R4', _qs("        pieces.append(k + '=' + v + '&')\n"))
+M2('c08-qs-pieces-semicolon', 'C08', 'R4', _qs("        pieces.append(encode_value(k) + '=' + v + ';')\n"))
+# every piece carries its '&' AND the pieces are joined with '&': '?a=1&&b=2'
+M2('c08-qs-pieces-joined-with-amp-twice', 'C08', 'R4', _qs("        pieces.append(encode_value(k) + '=' + v + '&')\n", sep="'&'"))
+M2('c08-qs-pieces-raw-value', 'C08', 'R4', _qs("        pieces.append(encode_value(k) + '=' + v + '&')\n") + [
+    {'file': _MISC, 'old': "        else:\n            v = encode_value(str(v))\n", 'new': "        else:\n            v = str(v)\n"}])
+
+# k2-c08-4 shape: the field separator is a keyword-only parameter no caller passes; the mistake is its default / a caller passing another
+_SEP = [{'file': _URI, 'old': "    query_string: str, keep_blank: bool = False, csv: bool = False\n",
+         'new': "    query_string: str, keep_blank: bool = False, csv: bool = False, *, separator: str = %r\n"},
+        {'file': _URI, 'old': "    for field in query_string.split('&'):\n", 'new': "    for field in query_string.split(separator):\n"}]
+M2('c08-separator-default-semicolon', 'C08', 'R1', [dict(e, new=(e['new'] % ';') if '%r' in e['new'] else e['new']) for e in _SEP])
